@@ -220,6 +220,27 @@ def space(tier):
         return {"config": {"version": 2}, "records": recs, "splits": list(range(len(recs) + 1)), "flag": None}
     sp.add("ordered_pairs", npairs * (1 if tier == "quick" else 4), pairs, exhaustive=True)
 
+    TSIZES = [(7, 6), (8, 6), (10, 6), (6, 7), (7, 7), (6, 6), (7, 5), (5, 7), (9, 8)]
+
+    def temp_pairs(j, rng):
+        # the same record id twice (temperature limits), in every pairing of sizes and with the last byte 0 / 1:
+        # the second record wins exactly as if it stood alone
+        sa, sb = TSIZES[j % len(TSIZES)]
+        k = j // len(TSIZES)
+
+        def val(size, last):
+            b = bytearray(rng.randrange(32, 64) for _ in range(size))
+            if size >= 7:
+                b[6] = last
+            return bytes(b).hex()
+        recs = [[0x0225, val(sa, k % 2)], [0x0225, val(sb, (k // 2) % 2)]]
+        if (k // 4) % 2:
+            recs.insert(1, rand_record(rng))
+        if (k // 8) % 2:
+            recs.insert(0, [0x0214, "01"])
+        return {"config": {"version": 2}, "records": recs, "splits": list(range(len(recs) + 1)), "flag": None}
+    sp.add("same_id_twice_all_size_pairs", len(TSIZES) * 16, temp_pairs, exhaustive=True)
+
     def rnd(j, rng):
         n = rng.randint(1, 12)
         recs = [rand_record(rng) for _ in range(n)]
